@@ -216,7 +216,8 @@ impl TokenBucketBudget {
     pub fn new(_tokens_per_second: f64, max_tokens: usize, initial_tokens: usize) -> Self {
         const SCALE: u64 = 1000;
         Self {
-            tokens: AtomicU64::new((initial_tokens as u64) * SCALE),
+            // The balance never exceeds the maximum, not even before the first deposit
+            tokens: AtomicU64::new((initial_tokens.min(max_tokens) as u64) * SCALE),
             max_tokens: (max_tokens as u64) * SCALE,
         }
     }
